@@ -142,6 +142,123 @@ static long cb_tell(void *priv)
 
 /* ---------------------------------------------------------------- variants */
 
+/* where the reported title sits in the file: a '.' of the title stands for itself or for any unprintable byte
+ * (libxmp_copy_adjust's replacement) */
+static unsigned char *find_title(unsigned char *d, long n, const char *title, size_t tl)
+{
+	long i;
+	size_t k;
+	for (i = 0; i + (long)tl <= n; i++) {
+		for (k = 0; k < tl; k++) {
+			unsigned char c = d[i + k], t = (unsigned char)title[k];
+			if (c == t)
+				continue;
+			if (t == '.' && (c < 32 || c > 126))
+				continue;
+			break;
+		}
+		if (k == tl)
+			return d + i;
+	}
+	return NULL;
+}
+
+/* ------------------------------------------------------------ chunked files */
+
+static void put_size(unsigned char *p, unsigned long v, int le)
+{
+	int i;
+	for (i = 0; i < 4; i++)
+		p[le ? i : 3 - i] = (unsigned char)(v >> (8 * i));
+}
+
+static unsigned long get_size(const unsigned char *p, int le)
+{
+	unsigned long v = 0;
+	int i;
+	for (i = 0; i < 4; i++)
+		v |= (unsigned long)p[le ? i : 3 - i] << (8 * i);
+	return v;
+}
+
+static long put_chunk(unsigned char *out, const char *id, const unsigned char *data, long len, int le, int even)
+{
+	memcpy(out, id, 4);
+	put_size(out + 4, (unsigned long)len, le);
+	if (len > 0)
+		memcpy(out + 8, data, len);
+	if (even && (len & 1)) {
+		out[8 + len] = 0;
+		return 8 + len + 1;
+	}
+	return 8 + len;
+}
+
+/* Unknown chunks to put in front of the chunk `at` (the one that holds the title), valid under the file's own layout:
+ *   kind 0      an empty chunk
+ *   kind 1      a chunk of 1 byte
+ *   kind 2      a chunk of 4097 bytes
+ *   kind 3+d    (d = 1..3, layouts with exact little-endian sizes only) a chunk of 1 byte, then a chunk of 43 bytes whose
+ *               payload holds, d bytes in, a DECOY chunk with the id of the title chunk and another title: a walker that
+ *               steps d bytes too far after the 1-byte chunk reads an empty pseudo-chunk out of the second header and then
+ *               lands exactly on the decoy; a walker that steps by the stored length never sees it */
+static long chunk_insertion(unsigned char *out, const unsigned char *at, int kind, int le, int even)
+{
+	unsigned char buf[4200];
+	long n = 0;
+	memset(buf, 'z', sizeof(buf));
+	if (kind == 0)
+		return put_chunk(out, "JNK0", buf, 0, le, even);
+	if (kind == 1)
+		return put_chunk(out, "JNKA", buf, 1, le, even);
+	if (kind == 2)
+		return put_chunk(out, "JNKL", buf, 4097, le, even);
+	{
+		int d = kind - 3;
+		unsigned char pay[43];
+		memset(pay, 'y', sizeof(pay));
+		memset(pay, 0, d);
+		memcpy(pay + d, at, 4);
+		put_size(pay + d + 4, 24, le);
+		memcpy(pay + d + 8, "DECOY TITLE NOT THE REAL", 24);
+		n += put_chunk(out + n, "JNKA", buf, 1, le, even);
+		n += put_chunk(out + n, "JNKB", pay, 43, le, even);
+		return n;
+	}
+}
+
+static int chunk_id_ok(const unsigned char *p)
+{
+	int i;
+	for (i = 0; i < 4; i++) {
+		if (p[i] < 32 || p[i] > 126)
+			return 0;
+	}
+	return 1;
+}
+
+/* Does the file tile into chunks (4-byte printable id, 32-bit size) from offset `hdr` to its end?  Returns the offset of
+ * the chunk that contains `target`, or -1. */
+static long chunk_layout(const unsigned char *d, long size, long hdr, int le, int even, long target)
+{
+	long p = hdr, found = -1;
+	int n = 0;
+	while (p + 8 <= size) {
+		unsigned long len = get_size(d + p + 4, le);
+		long step;
+		if (!chunk_id_ok(d + p) || len > (unsigned long)size)
+			return -1;
+		step = 8 + (long)len + (even ? (long)(len & 1) : 0);
+		if (target >= p + 8 && target < p + step)
+			found = p;
+		p += step;
+		n++;
+	}
+	if (n < 3 || p < size - 1 || p > size + 1)
+		return -1;
+	return found;
+}
+
 /* set by the variant op `N`: the generator certifies that these bytes are NOT a container of any kind the library
  * documents (a near miss of a signature was planted): the FILE pair is then held to the agreement clause whatever
  * libxmp_decrunch thinks of the bytes */
@@ -151,7 +268,7 @@ static int only_memory;
 
 /* variant spec: ';'-separated ops: o | t:<len> | f:<off>.<bit> | z:<off>.<byte> | h:<off>.<hex bytes> (overwrite) |
  * w:<off>.<len>.<first byte> (fill with a run of letters: no NUL, no blank) | N (certified non-container) |
- * M (memory pair only) */
+ * M (memory pair only) | c:<off>.<kind>.<layout> (junk / decoy chunks inserted in front of the chunk at <off>) */
 static unsigned char *apply_variant(const unsigned char *orig, long osize, const char *spec, long *vsize)
 {
 	unsigned char *d = (unsigned char *)malloc(osize > 0 ? osize : 1);
@@ -174,6 +291,17 @@ static unsigned char *apply_variant(const unsigned char *orig, long osize, const
 				sscanf(hx + 2 * i, "%2x", &v);
 				if (a >= 0 && a + (long)i < size)
 					d[a + i] = (unsigned char)v;
+			}
+		} else if (s[0] == 'c' && sscanf(s, "c:%ld.%ld.%ld", &a, &b, &c) == 3) {
+			/* insert junk chunk(s) in front of the chunk at offset a (layout c: bit 0 = little-endian sizes, bit 1 = chunks
+			 * padded to even length); kind b — see chunk_insertion() */
+			if (a >= 8 && a + 8 <= size) {
+				unsigned char ins[8192];
+				long n = chunk_insertion(ins, d + a, (int)b, (int)(c & 1), (int)((c >> 1) & 1));
+				d = (unsigned char *)realloc(d, size + n + 1);
+				memmove(d + a + n, d + a, size - a);
+				memcpy(d + a, ins, n);
+				size += n;
 			}
 		} else if (s[0] == 'w' && sscanf(s, "w:%ld.%ld.%ld", &a, &b, &c) == 3) {
 			long i;
@@ -568,7 +696,7 @@ static void run_file(const char *path, uint64_t seed, int nmut, long maxsize, co
 			size_t tl;
 			if (nmut > 0 && osize <= 4 * maxsize && xmp_test_module_from_memory(orig, osize, &ti) == 0 && (tl = strlen(ti.name)) >= 3) {
 				long lim = osize < 65536 ? osize : 65536;
-				unsigned char *at = (unsigned char *)memmem(orig, lim, ti.name, tl);
+				unsigned char *at = find_title(orig, lim, ti.name, tl);
 				if (at != NULL) {
 					int nw = (int)(sizeof(widths) / sizeof(widths[0])), k;
 					for (k = 0; k < nw; k++) {
@@ -579,6 +707,34 @@ static void run_file(const char *path, uint64_t seed, int nmut, long maxsize, co
 						d = apply_variant(orig, osize, spec, &vsize);
 						run_variant(spec, d, vsize, 0);
 						free(d);
+					}
+					/* chunk-walking test functions (C11_CHUNK_WALKERS: format names, '|'-separated, from the translator):
+					 * unknown chunks of zero / odd / large length and decoy title chunks in front of the title chunk */
+					{
+						const char *walkers = getenv("C11_CHUNK_WALKERS");
+						char pat[XMP_NAME_SIZE + 4];
+						snprintf(pat, sizeof(pat), "|%s|", ti.type);
+						if (walkers != NULL && strstr(walkers, pat) != NULL) {
+							static const long hdrs[] = { 8, 12 };
+							int hi, le, even, done = 0;
+							for (hi = 0; hi < 2 && !done; hi++) {
+								for (le = 1; le >= 0 && !done; le--) {
+									for (even = 0; even < 2 && !done; even++) {
+										long tc = chunk_layout(orig, osize, hdrs[hi], le, even, (long)(at - orig));
+										int kind;
+										if (tc < 0)
+											continue;
+										done = 1;
+										for (kind = 0; kind < (le && !even ? 7 : 3); kind++) {
+											snprintf(spec, sizeof(spec), "c:%ld.%d.%d", tc, kind, le | (even << 1));
+											d = apply_variant(orig, osize, spec, &vsize);
+											run_variant(spec, d, vsize, 0);
+											free(d);
+										}
+									}
+								}
+							}
+						}
 					}
 				}
 			}
@@ -639,22 +795,30 @@ int main(int argc, char **argv)
 	}
 	if (argc >= 5 && strcmp(argv[1], "cases") == 0) {
 		/* c11_agree cases <scratch> <bystander> <listfile> ; list lines: <variant> TAB <path> */
-		FILE *lf = fopen(argv[4], "r");
-		char line[4096];
-		if (lf == NULL)
+		/* the list is read completely and closed before any child is forked: a grandchild of the library's own
+		 * (a failed exec of an external unpacker ends in exit(), which re-synchronises inherited input streams) must not
+		 * be able to move the read position of the list */
+		long lsize = 0;
+		char *list = (char *)read_file(argv[4], &lsize), *line, *end;
+		if (list == NULL)
 			return 4;
+		list = (char *)realloc(list, lsize + 1);
+		list[lsize] = 0;
 		scratch = argv[2];
 		setup_bystander(argv[3]);
-		while (fgets(line, sizeof(line), lf) != NULL) {
-			char *tab = strchr(line, '\t'), *nl = strchr(line, '\n');
-			if (nl)
-				*nl = 0;
+		for (line = list; line < list + lsize; line = end + 1) {
+			char *tab;
+			end = strchr(line, '\n');
+			if (end == NULL)
+				end = list + lsize;
+			*end = 0;
+			tab = strchr(line, '\t');
 			if (tab == NULL)
 				continue;
 			*tab = 0;
 			run_file(tab + 1, 0, 0, 0, line);
 		}
-		fclose(lf);
+		free(list);
 		return 0;
 	}
 	if (argc < 8 || strcmp(argv[1], "run") != 0) {
